@@ -47,6 +47,16 @@ func main() {
 			panic(err)
 		}
 		debugGuards(NewCtx(P, "quick"), os.Args[2], os.Args[3])
+	case "mag":
+		P, err := Load(repoDir())
+		if err != nil {
+			panic(err)
+		}
+		filter := ""
+		if len(os.Args) > 2 {
+			filter = os.Args[2]
+		}
+		debugMag(P, filter)
 	case "replay":
 		if len(os.Args) < 3 {
 			usage()
